@@ -519,3 +519,234 @@ Proof.
   { unfold ret_lts. cbn [m_ret]. rewrite ty_lts_marks. unfold nonstatic. apply in_flat_map. exists (Lt i). split; auto. left; auto. }
   specialize (F i Hr). apply Nat.ltb_lt in F. lia.
 Qed.
+
+(* ---------- every lowered lifetime lies inside the method's LifetimeEnv ---------- *)
+Definition alt_ok (n : nat) (a : alt) : Prop := match a with ANamed i => i < n | _ => True end.
+Definition below (k : nat) (l : lt) : Prop := match l with Static => True | Lt i => i < k end.
+Definition sty_alts (t : sty) : list alt :=
+  match t with
+  | SPrim => []
+  | SOpaque _ _ b _ args _ => opt_list b ++ args
+  | SSlice _ b => opt_list b
+  | SStruct _ _ _ args _ => args
+  end.
+Definition self_alts (sf : sself) : list alt :=
+  match sf with SelfNone => [] | SelfRef l _ args => l :: args | SelfVal _ args => args end.
+Definition ssig_ok (g : ssig) : Prop :=
+  Forall (alt_ok (s_n g)) (self_alts (s_self g) ++ flat_map sty_alts (s_params g) ++ flat_map sty_alts (s_ret g)).
+
+Definition src_below (k : nat) (e : esrc) : Prop :=
+  match e with SelfParam h | OneParam h => below k h | _ => True end.
+Definition cache_below (k : nat) (c : option (list lt)) : Prop :=
+  match c with Some hs => Forall (below k) hs | None => True end.
+Definition sinv (n : nat) (s : st) : Prop := n <= num s /\ src_below (num s) (src s) /\ cache_below (num s) (cache s).
+
+Lemma below_mono k k' l : k <= k' -> below k l -> below k' l.
+Proof. destruct l; cbn; auto. lia. Qed.
+Lemma Forall_below_mono k k' ls : k <= k' -> Forall (below k) ls -> Forall (below k') ls.
+Proof. intros H F. eapply Forall_impl; [|exact F]. intros a. apply below_mono; auto. Qed.
+Lemma src_below_mono k k' e : k <= k' -> src_below k e -> src_below k' e.
+Proof. destruct e; cbn; auto; apply below_mono. Qed.
+Lemma cache_below_mono k k' c : k <= k' -> cache_below k c -> cache_below k' c.
+Proof. destruct c; cbn; auto. apply Forall_below_mono. Qed.
+
+Lemma assign_below n ls : forall k, Forall (alt_ok n) ls -> n <= k -> Forall (below (k + count_anon ls)) (assign k ls).
+Proof.
+  induction ls as [|a r IH]; intros k F Hk; cbn [assign]; [constructor|].
+  inversion F as [|a' r' Ha Hr]; subst. unfold count_anon in *.
+  destruct a; cbn [filter is_anon length].
+  - constructor; [exact I|]. apply IH; auto.
+  - constructor; [cbn in *; lia|]. apply IH; auto.
+  - constructor; [cbn; lia|]. replace (k + S (length (filter is_anon r))) with (S k + length (filter is_anon r)) by lia.
+    apply IH; auto.
+Qed.
+
+Lemma fold_visit_below k hs : forall e, src_below k e -> Forall (below k) hs -> src_below k (fold_left visit hs e).
+Proof.
+  induction hs as [|h r IH]; intros e He F; cbn [fold_left]; auto.
+  inversion F; subst. apply IH; auto. destruct e; cbn in *; auto.
+Qed.
+
+Lemma self_or_new_below n s ls hs s1 :
+  self_lifetimes_or_new s ls = (hs, s1) -> sinv n s -> Forall (alt_ok n) ls ->
+  sinv n s1 /\ num s <= num s1 /\ Forall (below (num s1)) hs.
+Proof.
+  unfold self_lifetimes_or_new, sinv. intros H [Hn [Hs Hc]] F. destruct (cache s) as [c|] eqn:Ec.
+  - inversion H; subst. rewrite Ec. cbn in Hc. auto.
+  - rewrite map_st_base in H. inversion H; subst. cbn [num src cache].
+    pose proof (assign_below n ls (num s) F Hn) as A.
+    repeat split; auto; try lia. eapply src_below_mono; [|exact Hs]. lia.
+Qed.
+
+Lemma param_map_below n s ls hs s1 :
+  map_st param_lower s ls = (hs, s1) -> sinv n s -> Forall (alt_ok n) ls ->
+  sinv n s1 /\ num s <= num s1 /\ Forall (below (num s1)) hs.
+Proof.
+  rewrite map_st_param. unfold sinv. intros H [Hn [Hs Hc]] F. inversion H; subst. cbn [num src cache].
+  pose proof (assign_below n ls (num s) F Hn) as A.
+  repeat split; auto; try lia.
+  - apply fold_visit_below; auto. eapply src_below_mono; [|exact Hs]. lia.
+  - eapply cache_below_mono; [|exact Hc]. lia.
+Qed.
+
+Lemma pad_ok n ls ndef : Forall (alt_ok n) ls -> Forall (alt_ok n) (pad ls ndef).
+Proof. intros F. unfold pad. apply Forall_app. split; auto. apply Forall_forall. intros a Ha. apply repeat_spec in Ha. subst. exact I. Qed.
+
+Lemma param_generics_below n s ls ndef sp hs s1 :
+  param_generics s ls ndef sp = (hs, s1) -> sinv n s -> Forall (alt_ok n) ls ->
+  sinv n s1 /\ num s <= num s1 /\ Forall (below (num s1)) hs.
+Proof.
+  unfold param_generics. destruct sp; intros H I F.
+  - eapply self_or_new_below; eauto.
+  - eapply param_map_below; eauto. apply pad_ok; auto.
+Qed.
+
+Lemma param_borrow_below n s b hb s1 :
+  param_borrow s b = (hb, s1) -> sinv n s -> Forall (alt_ok n) (opt_list b) ->
+  sinv n s1 /\ num s <= num s1 /\ Forall (below (num s1)) (opt_list hb).
+Proof.
+  destruct b as [l|]; cbn [param_borrow opt_list]; intros H I F.
+  - destruct (param_lower s l) as [h s0] eqn:E. inversion H; subst.
+    assert (M : map_st param_lower s [l] = ([h], s1)) by (cbn [map_st]; rewrite E; auto).
+    destruct (param_map_below n _ _ _ _ M I F) as [A [B C]]. cbn [opt_list]. auto.
+  - inversion H; subst. cbn. repeat split; auto; apply I.
+Qed.
+
+Definition ty_below (k : nat) (t : ty) : Prop := Forall (below k) (ty_lts t).
+
+Lemma lower_param_below n s t p s1 :
+  lower_param s t = (p, s1) -> sinv n s -> Forall (alt_ok n) (sty_alts t) ->
+  sinv n s1 /\ num s <= num s1 /\ ty_below (num s1) p.
+Proof.
+  unfold ty_below. destruct t as [|sp opt b tid args ndef|opt b|sp opt tid args ndef]; cbn [lower_param sty_alts]; intros H I F.
+  - inversion H; subst. cbn. repeat split; auto; apply I.
+  - apply Forall_app in F. destruct F as [Fb Fa].
+    destruct (param_borrow s b) as [hb s0] eqn:Eb. destruct (param_generics s0 args ndef sp) as [hs s2] eqn:Eg.
+    inversion H; subst. destruct (param_borrow_below n _ _ _ _ Eb I Fb) as [I0 [L0 B0]].
+    destruct (param_generics_below n _ _ _ _ _ _ Eg I0 Fa) as [I2 [L2 B2]].
+    repeat split; try apply I2; try lia. cbn [ty_lts]. apply Forall_app. split; auto. eapply Forall_below_mono; [|exact B0]. lia.
+  - destruct (param_borrow s b) as [hb s0] eqn:Eb. inversion H; subst.
+    destruct (param_borrow_below n _ _ _ _ Eb I F) as [I0 [L0 B0]]. auto.
+  - destruct (param_generics s args ndef sp) as [hs s0] eqn:Eg. inversion H; subst.
+    destruct (param_generics_below n _ _ _ _ _ _ Eg I F) as [I0 [L0 B0]]. auto.
+Qed.
+
+Lemma lower_params_below n ts : forall s ps s1,
+  lower_params s ts = (ps, s1) -> sinv n s -> Forall (alt_ok n) (flat_map sty_alts ts) ->
+  sinv n s1 /\ num s <= num s1 /\ Forall (ty_below (num s1)) ps.
+Proof.
+  induction ts as [|t r IH]; intros s ps s1; cbn [lower_params flat_map]; intros H I F.
+  - inversion H; subst. repeat split; auto; apply I.
+  - apply Forall_app in F. destruct F as [Ft Fr].
+    destruct (lower_param s t) as [p s0] eqn:Ep. destruct (lower_params s0 r) as [pr s2] eqn:Er. inversion H; subst.
+    destruct (lower_param_below n _ _ _ _ Ep I Ft) as [I0 [L0 B0]].
+    destruct (IH _ _ _ Er I0 Fr) as [I2 [L2 B2]].
+    repeat split; try apply I2; try lia. constructor; auto. unfold ty_below in *. eapply Forall_below_mono; [|exact B0]. lia.
+Qed.
+
+Lemma lower_self_below n sf ps0 s0 :
+  lower_self n sf = (ps0, s0) -> Forall (alt_ok n) (self_alts sf) ->
+  sinv n s0 /\ Forall (ty_below (num s0)) ps0.
+Proof.
+  assert (I0 : sinv n (mkSt NoBorrows None n)) by (unfold sinv; cbn; auto).
+  unfold lower_self. destruct sf as [|l tid args|tid args]; cbn [self_alts]; intros H F.
+  - inversion H; subst. split; auto.
+  - inversion F as [|a r Fl Fa]; subst.
+    destruct (base_lower _ l) as [h s1] eqn:E.
+    assert (Hh : below (num s1) h /\ n <= num s1 /\ cache s1 = None).
+    { destruct l; cbn in E; inversion E; subst; cbn in *; repeat split; auto; lia. }
+    destruct Hh as [Hh [Hn Hc]].
+    destruct (self_lifetimes_or_new _ args) as [hs s3] eqn:E2. inversion H; subst.
+    assert (I1 : sinv n (mkSt (SelfParam h) (cache s1) (num s1))) by (unfold sinv; cbn [num src cache]; rewrite Hc; cbn; auto).
+    destruct (self_or_new_below n _ _ _ _ E2 I1 Fa) as [I3 [L3 B3]]. split; auto.
+    constructor; auto. unfold ty_below. cbn [ty_lts opt_list]. apply Forall_app. split; auto.
+    constructor; auto. eapply below_mono; [|exact Hh]. exact L3.
+  - destruct (self_lifetimes_or_new _ args) as [hs s3] eqn:E2. inversion H; subst.
+    destruct (self_or_new_below n _ _ _ _ E2 I0 F) as [I3 [L3 B3]]. split; auto.
+Qed.
+
+Lemma ret_lower_below n s l h : ret_lower s l = Some h -> sinv n s -> alt_ok n l -> below (num s) h.
+Proof.
+  unfold sinv. intros H [Hn [Hs Hc]] A. destruct l; cbn in H.
+  - inversion H; subst. exact I.
+  - inversion H; subst. cbn in *. lia.
+  - destruct (src s); inversion H; subst; auto.
+Qed.
+
+Lemma map_opt_below n s ls hs :
+  map_opt (ret_lower s) ls = Some hs -> sinv n s -> Forall (alt_ok n) ls -> Forall (below (num s)) hs.
+Proof.
+  revert hs. induction ls as [|a r IH]; intros hs; cbn [map_opt]; intros H I F.
+  - inversion H; subst. constructor.
+  - inversion F; subst. destruct (ret_lower s a) as [x|] eqn:E; [|discriminate].
+    destruct (map_opt (ret_lower s) r) as [xs|]; [|discriminate]. inversion H; subst.
+    constructor; [eapply ret_lower_below; eauto|auto].
+Qed.
+
+Lemma lower_ret1_below n s t p s1 :
+  lower_ret1 s t = Some (p, s1) -> sinv n s -> Forall (alt_ok n) (sty_alts t) ->
+  sinv n s1 /\ num s <= num s1 /\ ty_below (num s1) p.
+Proof.
+  unfold ty_below.
+  assert (B : forall b hb, ret_borrow s b = Some hb -> sinv n s -> Forall (alt_ok n) (opt_list b) -> Forall (below (num s)) (opt_list hb)).
+  { intros [l|] hb; cbn; intros H I F.
+    - destruct (ret_lower s l) eqn:E; [|discriminate]. inversion H; subst. inversion F; subst. constructor; [eapply ret_lower_below; eauto|constructor].
+    - inversion H; subst. constructor. }
+  assert (G : forall args ndef sp hs s2, ret_generics s args ndef sp = Some (hs, s2) -> sinv n s -> Forall (alt_ok n) args ->
+              sinv n s2 /\ num s <= num s2 /\ Forall (below (num s2)) hs).
+  { intros args ndef sp hs s2. unfold ret_generics. destruct sp; intros H I F.
+    - inversion H as [E]. eapply self_or_new_below; eauto.
+    - destruct (map_opt _ _) as [xs|] eqn:E; [|discriminate]. inversion H; subst.
+      repeat split; auto; try apply I. eapply map_opt_below; eauto. apply pad_ok; auto. }
+  destruct t as [|sp opt b tid args ndef|opt b|sp opt tid args ndef]; cbn [lower_ret1 sty_alts]; intros H I F.
+  - inversion H; subst. cbn. repeat split; auto; apply I.
+  - apply Forall_app in F. destruct F as [Fb Fa].
+    destruct (ret_borrow s b) as [hb|] eqn:Eb; [|discriminate].
+    destruct (ret_generics s args ndef sp) as [[hs s2]|] eqn:Eg; [|discriminate]. inversion H; subst.
+    destruct (G _ _ _ _ _ Eg I Fa) as [I2 [L2 B2]].
+    repeat split; try apply I2; try lia. cbn [ty_lts]. apply Forall_app. split; auto.
+    eapply Forall_below_mono; [|exact (B _ _ Eb I Fb)]. lia.
+  - destruct (ret_borrow s b) as [hb|] eqn:Eb; [|discriminate]. inversion H; subst.
+    repeat split; auto; try apply I. cbn [ty_lts]. eapply B; eauto.
+  - destruct (ret_generics s args ndef sp) as [[hs s2]|] eqn:Eg; [|discriminate]. inversion H; subst.
+    destruct (G _ _ _ _ _ Eg I F) as [I2 [L2 B2]]. auto.
+Qed.
+
+Lemma lower_rets_below n ts : forall s rs s1,
+  lower_rets s ts = Some (rs, s1) -> sinv n s -> Forall (alt_ok n) (flat_map sty_alts ts) ->
+  sinv n s1 /\ num s <= num s1 /\ Forall (ty_below (num s1)) rs.
+Proof.
+  induction ts as [|t r IH]; intros s rs s1; cbn [lower_rets flat_map]; intros H I F.
+  - inversion H; subst. repeat split; auto; apply I.
+  - apply Forall_app in F. destruct F as [Ft Fr].
+    destruct (lower_ret1 s t) as [[p s0]|] eqn:Ep; [|discriminate].
+    destruct (lower_rets s0 r) as [[pr s2]|] eqn:Er; [|discriminate]. inversion H; subst.
+    destruct (lower_ret1_below n _ _ _ _ Ep I Ft) as [I0 [L0 B0]].
+    destruct (IH _ _ _ Er I0 Fr) as [I2 [L2 B2]].
+    repeat split; try apply I2; try lia. constructor; auto. unfold ty_below in *. eapply Forall_below_mono; [|exact B0]. lia.
+Qed.
+
+(* every lifetime the lowering hands to the borrow analysis and to the backends is 'static or an index below
+   LifetimeEnv::num_lifetimes: LifetimeEnv::fmt_lifetime cannot reach its "Found out of range lifetime" panic on a
+   lifetime of the method's own signature *)
+Theorem lowered_lifetimes_in_range g m k :
+  ssig_ok g -> lower_sig g = Some (m, k) ->
+  s_n g <= k /\ Forall (below k) (flat_map ty_lts (m_params m ++ m_ret m)).
+Proof.
+  unfold ssig_ok, lower_sig. intros W.
+  apply Forall_app in W. destruct W as [Ws W]. apply Forall_app in W. destruct W as [Wp Wr].
+  destruct (lower_self (s_n g) (s_self g)) as [ps0 s0] eqn:Es.
+  destruct (lower_params s0 (s_params g)) as [ps s1] eqn:Ep.
+  destruct (lower_rets s1 (s_ret g)) as [[rs s2]|] eqn:Er; [|discriminate].
+  intros H; inversion H; subst. clear H.
+  destruct (lower_self_below _ _ _ _ Es Ws) as [I0 B0].
+  destruct (lower_params_below _ _ _ _ _ Ep I0 Wp) as [I1 [L1 B1]].
+  destruct (lower_rets_below _ _ _ _ _ Er I1 Wr) as [I2 [L2 B2]].
+  split; [apply I2|]. cbn [m_params m_ret]. rewrite flat_map_app, flat_map_app, ty_lts_marks.
+  assert (FM : forall K ts, Forall (ty_below K) ts -> Forall (below K) (flat_map ty_lts ts)).
+  { intros K ts F. induction F as [|t r Ht Hr IH]; cbn; [constructor|]. apply Forall_app. split; auto. }
+  repeat (apply Forall_app; split).
+  - eapply Forall_below_mono; [|apply FM; exact B0]. lia.
+  - eapply Forall_below_mono; [|apply FM; exact B1]. lia.
+  - apply FM; auto.
+Qed.
